@@ -31,6 +31,7 @@ package main
 import (
 	"bufio"
 	"context"
+	"encoding/hex"
 	"encoding/json"
 	"fmt"
 	"os"
@@ -119,6 +120,7 @@ type childResult struct {
 	burst     []burstKindOut
 	construct []constructOut
 	tailFails []failOut
+	env       string
 }
 
 func runRep(scratch string, jb job, watchdog time.Duration) *childResult {
@@ -147,6 +149,8 @@ func runRep(scratch string, jb job, watchdog time.Duration) *childResult {
 		cmd.Env = append(cmd.Env, e)
 	}
 	cmd.Env = append(cmd.Env, envJob+"="+jobPath, "GORACE="+raceOpts+" log_path="+logPrefix, "GOTRACEBACK=all")
+	cmd.Env = append(cmd.Env, jb.Env...)
+	res.env = strings.Join(jb.Env, " ")
 	cmd.Stdout, cmd.Stderr = ef, ef
 	err = cmd.Run()
 	ef.Close()
@@ -228,6 +232,7 @@ func main() {
 		"stalled-peer stage (child process): one operation is parked in the caller's Write/Read at header / nonce / chunk / Close positions, or in a pipe nobody reads yet; 8 peers on the same shared values must complete meanwhile; 'blocked' is decided logically (not complete within a 12 s step watchdog while parked, complete once released); a control round separates starvation (inconclusive)",
 		"construct-while-use stage (in every race child): per caller value (ssh.PublicKey ed25519/rsa, *rsa.PrivateKey, ed25519.PrivateKey, PEM bytes + key line, public key + PEM for NewEncryptedSSHIdentity, X25519 identity and strings, passphrase, plugin strings) 4 goroutines construct from it again and again while 4 goroutines use siblings built earlier; the caller's value is compared with a deep copy afterwards; the EncryptedSSHIdentity values are only used through Recipient() (decrypting costs a bcrypt run)",
 		"process-wide state (GOGC, memory limit, GOMAXPROCS, environment, working directory, umask, crypto/rand.Reader, ignored signals) is snapshotted before and compared after every burst of every race child and of the library-defaults child (staggered starts 1.5 ms apart, and work factor 16 operations nested inside work factor 18 ones); goroutine and descriptor counts are violations only if they keep growing with the number of bursts",
+		"environment: for every literal setting of a variable the tree reads (mon.EnvSettings; at most 12 in quick) a short race-enabled child repeats two rounds of the standard burst with that setting added to its environment; the shared passphrase is caf\\xe9 na\\xefve in one round and ASCII in the other, and the first operations of the goroutines are forced onto the fresh scrypt / X25519 / ssh values",
 		"shared lists: three []age.Identity orders of the four identities and two []age.Recipient lists, spread with ... into the calls; checked unchanged after every round that used them, plus a sequential pass",
 		"EncryptedSSHIdentity (caches the decrypted key) and plugin values are outside the property's list of types and are not exercised",
 		"decryption inputs and the check of encryption outputs come from the reference implementation (refage), validated against the CCTV vectors at start-up",
@@ -277,6 +282,37 @@ func main() {
 		dres.buildErr = buildErr
 	}
 	sem := make(chan struct{}, conc)
+	// the process environment: a short race-enabled child per literal setting of
+	// a variable the tree under test reads (fresh shared values, first uses of
+	// all four kinds forced to overlap, one passphrase with bytes >= 0x80)
+	var envSettings []mon.EnvSetting
+	for _, e := range mon.EnvSettings() {
+		if e.Literal {
+			envSettings = append(envSettings, e)
+		}
+	}
+	envSkipped := 0
+	if maxEnv := r.Pick(12, 1<<30); len(envSettings) > maxEnv {
+		envSkipped = len(envSettings) - maxEnv
+		envSettings = envSettings[:maxEnv]
+	}
+	envResults := make([]*childResult, len(envSettings))
+	for i, e := range envSettings {
+		wg.Add(1)
+		go func(i int, e mon.EnvSetting) {
+			defer wg.Done()
+			sem <- struct{}{}
+			defer func() { <-sem }()
+			j := jb
+			j.Rep = 100 + i
+			j.Gs, j.Ps, j.Sizes, j.Mixes = []int{8, 32}, []int{4}, []int{1}, []string{"mixed"}
+			j.Env = []string{e.String()}
+			j.PassesHex = []string{hex.EncodeToString([]byte("caf\xe9 na\xefve")), hex.EncodeToString([]byte("plain ascii passphrase"))}
+			j.ForceFirst = []string{"enc:Sr", "dec:Si", "dec:IL0.../S1", "enc:Xr", "dec:Ei", "enc:Rr", "dec:Si", "enc:Sr"}
+			j.Short = true
+			envResults[i] = runRep(scratch, j, watchdog)
+		}(i, e)
+	}
 	for k := 0; k < reps; k++ {
 		wg.Add(1)
 		go func(k int) {
@@ -289,6 +325,25 @@ func main() {
 		}(k)
 	}
 	wg.Wait()
+
+	// ---- environment settings ------------------------------------------------------
+	envTab := map[string]string{}
+	envRounds := 0
+	for i, res := range envResults {
+		ops := 0
+		for _, ro := range res.rounds {
+			ops += ro.Ops
+		}
+		envRounds += len(res.rounds)
+		envTab[envSettings[i].String()] = fmt.Sprintf("rounds=%d ops=%d race_reports=%d done=%v", len(res.rounds), ops, len(res.races), res.done)
+		if len(res.rounds) < 2 && res.done {
+			r.Inconclusive("environment setting %s: only %d rounds ran", envSettings[i], len(res.rounds))
+		}
+		results = append(results, res)
+	}
+	r.Set("environment_settings_run", envTab)
+	r.Count("environment_settings_run", int64(len(envSettings)))
+	r.Count("environment_settings_left_to_the_thorough_tier", int64(envSkipped))
 
 	// ---- the stalled-peer stage (independence of progress) ------------------------
 	results = append(results, &childResult{rep: -1, done: true, races: stres.races})
@@ -647,8 +702,8 @@ func main() {
 	if armedRounds*10 < encRounds*6 || encRounds == 0 {
 		r.Inconclusive("only %d of %d encrypting rounds had >= 3 streams closed twice in the warm-up followed by overlapping encryptions (min 60%%)", armedRounds, encRounds)
 	}
-	if rounds != int64(reps*roundsPerRep) && len(dedup) == 0 {
-		r.Inconclusive("%d of %d rounds completed", rounds, reps*roundsPerRep)
+	if rounds != int64(reps*roundsPerRep+2*len(envSettings)) && len(dedup) == 0 {
+		r.Inconclusive("%d of %d rounds completed", rounds, reps*roundsPerRep+2*len(envSettings))
 	}
 
 	r.MinEvals = int64(r.Pick(20000, 150000))
